@@ -396,10 +396,16 @@ func fopOnNumber(rec []byte, qValDte *DtypeEnclosure,
 		return op == NotEquals, nil
 	}
 
-	// now create a float (highest level for rec, only if we need to based on query
+	// now create a float (highest level for rec, only if we need to based on query)
+	// and compare as floats: comparing an integer record with the truncated literal
+	// would make x<2.5 miss x=2 and x=2.0 miss x=2.
 	if qValDte.Dtype == SS_DT_FLOAT && recDte.Dtype != SS_DT_FLOAT {
-		// todo need to check err
-		recDte.FloatVal, _ = dtu.ConvertToFloat(recDte.UnsignedVal, 64)
+		if recDte.Dtype == SS_DT_SIGNED_NUM {
+			recDte.FloatVal = float64(recDte.SignedVal)
+		} else {
+			recDte.FloatVal = float64(recDte.UnsignedVal)
+		}
+		recDte.Dtype = SS_DT_FLOAT
 	}
 
 	return compareNumberDte(recDte, qValDte, op)
